@@ -59,7 +59,13 @@ def random_molecule(rng, nmax, lim):
     n = rng.choice([1, 2, 3, 5, 8, 13, 40, 99, 100, 101, 150, 200]) if rng.random() < 0.5 else rng.randint(1, nmax)
     zs = [rng.randint(1, 103) for _ in range(n)]
     pos = np.array([[random_coord(rng, lim) for _ in range(3)] for _ in range(n)])
-    return Molecule([Element[z] for z in zs], pos), zs, pos
+    kw = {}
+    r = rng.random()
+    if r < 0.25:
+        kw["name"] = ""                      # blank title line in the SDF record
+    elif r < 0.5:
+        kw["name"] = rng.choice(["water", "my molecule", "X-1 (2)"])
+    return Molecule([Element[z] for z in zs], pos, **kw), zs, pos
 
 
 # ---- line-level correspondence ---------------------------------------------------
@@ -206,7 +212,7 @@ def check_molecule(m, zs, pos, rng, tmp, with_bonds):
             idx = sorted(rng.sample(range(n), rng.randint(1, n)))
             subs.append(idx)
         from chmpy.core.element import Element
-        mols = [Molecule([Element[zs[i]] for i in idx], pos[idx]) for idx in subs]
+        mols = [Molecule([Element[zs[i]] for i in idx], pos[idx], **({"name": rng.choice(["", "a b"])} if rng.random() < 0.5 else {})) for idx in subs]
         multi = "".join(mm.to_sdf_string() + "\n$$$$\n" for mm in mols)
         recs = parse_sdf_contents(multi)
         if len(recs) != k:
